@@ -19,7 +19,7 @@ const MODS: [&str; 4] = ["A", "B", "C", "D"];
 /// two different member signatures, importers whose well-typedness depends on that signature,
 /// cycles, self-imports, imports from a module that only exists after a rename (D), local type
 /// errors, syntax errors, empty files.
-const TEXTS: [&str; 16] = [
+const TEXTS: [&str; 18] = [
   /* 0 */ "class X(val v: int) {\n  function mk(): X = X.init(1)\n  function f(): int = 1\n}\n",
   /* 1 */ "class X(val v: int) {\n  function mk(): X = X.init(1)\n  function f(): bool = true\n}\n",
   /* 2 */
@@ -44,6 +44,12 @@ const TEXTS: [&str; 16] = [
   "import { X } from A\nclass U {\n  function g(): int = X.mk().sixteenBytesFieldName + X.functionWithAVeryLongName()\n}\n",
   /* 15 */
   "import { X, VariantHolderLongName } from A\nclass U2 {\n  function g(h: VariantHolderLongName): int = match h { VariantWithAVeryLongName(n) -> n, OtherVariantLongName -> X.mk().v }\n}\n",
+  // edits that change only the layout / the comments of a module: the same declarations as T1 and T0 at
+  // other positions, so the locations that dependants quote (reference locations, code frames) move
+  /* 16 */
+  "\n\nclass X(val v: int) {\n  function mk(): X = X.init(1)\n\n  function f(): bool =\n    true\n}\n",
+  /* 17 */
+  "// moved\nclass X(val v: int) {\n  // moved\n  function mk(): X = X.init(1)\n  function f(): int = 1\n}\n",
 ];
 
 const INITS: [&[(u8, u8)]; 10] = [
